@@ -48,7 +48,7 @@ void case_impl(Ctx &c, int variant) {
     s.clear_tx();
   };
   int steps = 0, send_faults = 0, from_cb_cnt = 0;
-  int api_resets = 0;
+  int api_resets = 0, reinits = 0;
   auto do_op = [&](uint32_t op) {
     s.clear_tx();
     if (op == 0) {        // set
@@ -142,6 +142,14 @@ void case_impl(Ctx &c, int variant) {
       else CHECK(c, s.tx.empty(), "one-frame-per-transition", "CONmtReset before the node was started made it transmit %zu frame(s)", s.tx.size());
       for (int e = 0; e < CO_EMCY_N; e++) active[e] = false;
       s.clear_tx(); api_resets++;
+    } else if (op == 10) { // the application restarts the stack without a power cycle: CONodeStop, its RAM objects 1001h / 1003h back to their defaults, CONodeInit on the
+      // same memory, CONodeStart - no error is active afterwards, the register is 0, the count is 0, the history is empty
+      s.api_begin(); CONodeStop(s.node); s.api_end("CONodeStop");
+      *reg1001 = 0; if (depth > 0) { *hist.num = 0; for (int i = 0; i < depth; i++) *hist.ent[i] = 0; }
+      s.reinit(); s.clear_tx(); s.start(); mode = 2; VLOG(c, "CONodeStop, CONodeInit on the same memory, CONodeStart");
+      for (auto &t : s.tx) CHECK(c, t.id == 0x700u + s.nodeid, "one-frame-per-transition", "restarting the node made it transmit %s", t.str().c_str());
+      for (int e = 0; e < CO_EMCY_N; e++) active[e] = false; mh.clear();
+      s.clear_tx(); reinits++;
     } else {              // ticks must not produce EMCY traffic
       for (int i = 0; i < 3; i++) s.step_tick();
       CHECK(c, s.tx.empty(), "one-frame-per-transition", "timer steps made the node transmit %zu frame(s)", s.tx.size());
@@ -159,11 +167,11 @@ void case_impl(Ctx &c, int variant) {
   }
   while (!c.t.exhausted() && steps < (c.thorough ? 120 : 60)) {
     steps++; c.ops++;
-    static const uint16_t W[9] = {40, 22, 6, 8, 10, 8, 6, 4, 4}, WB[10] = {40, 22, 6, 8, 10, 8, 6, 4, 4, 5};
+    static const uint16_t W[9] = {40, 22, 6, 8, 10, 8, 6, 4, 4}, WB[11] = {40, 22, 6, 8, 10, 8, 6, 4, 4, 5, 4};
     do_op(variant == 3 ? c.t.weighted(WB) : c.t.weighted(W));
   }
   if (shared_bit || wrapped) c.nontrivial = true;
-  if (api_resets) c.cls("node-reset-through-the-api");
+  if (api_resets) c.cls("node-reset-through-the-api"); if (reinits) c.cls("stack-initialised-a-second-time-on-the-same-memory");
   if (send_faults) c.cls("emcy-frame-refused-by-the-driver");
   if (from_cb_cnt) c.cls("error-changed-from-inside-the-mode-change-callback");
   if (shared_bit) c.cls("two-errors-share-a-register-bit");
@@ -181,7 +189,7 @@ Registrar reg(Prop{
     "Cases: node id 1..127, emergency table with register bits 0..7 per error (several errors per bit, generic bit used), 2..11 (32) errors in use, history depth 0..8 (0 = 1003h absent); histories of up to 60 (120) ops: "
     "COEmcySet(err[, user data]), COEmcyClr, COEmcyReset(silent?), SDO write 0 / non-zero to 1003h:0, SDO reads of 1003h:0..n, NMT state changes and resets, valid/invalid rewrites of 1014h, ticks; mode send-faults: the CAN driver refuses the frame of a set/clear call - the frame is lost, state, register, count and history change as if it had been sent. "
     "Mode from-mode-change-callback: the application sets or clears an error from inside CONmtModeChange during an NMT transition; the state that permits the frame is the one CONmtGetMode reports at that moment. "
-    "Mode before-start: errors are set, cleared and reset between CONodeInit and CONodeStart (state changes without frames), the application may reset the node there with CONmtReset(), then starts it; CONmtReset() also appears later in the history. "
+    "Mode before-start: errors are set, cleared and reset between CONodeInit and CONodeStart (state changes without frames), the application may reset the node there with CONmtReset(), then starts it; CONmtReset() also appears later in the history, and so does a restart of the stack without a power cycle (CONodeStop, 1001h/1003h back to their defaults, CONodeInit on the same memory, CONodeStart). "
     "Oracle: reference model after every step: active set (COEmcyGet), count (COEmcyCnt), 1001h bits, EMCY frames (exactly one per real transition, code, updated register byte, 5 manufacturer bytes, identifier = 1014h; none for silent reset, outside PRE-OP/OP or with an invalid COB-ID), history newest-first with its count, clear on write 0, 0609 0030h otherwise. "
     "Non-trivial: two errors sharing a register bit were active together, or the history wrapped. Distinct = distinct decoded choice sequence.",
     {Mode{"random", one_case, false, 1000000, 14000000, 0, 0, 260, 500},
